@@ -428,6 +428,20 @@ class Exec:
     # ---- C17
     def do_query(self, prop, idx, op):
         if prop != 'C17':
+            # not judged here, but executed: read-only queries leave state
+            # behind (reverse links) that later steps and run() may meet
+            obj = self.objs[op['sched']]
+            starts = [self.objs[s] for s in op['starts']
+                      if s in self.model.members[op['sched']]]
+
+            def calls():
+                if starts:
+                    list(obj.successors(*starts))
+                    obj.successors_downstream(*starts)
+                    obj.predecessors_upstream(*starts)
+                list(obj.exit_jobs())
+                list(obj.entry_jobs())
+            self._call(calls)
             return
         sched, m = op['sched'], self.model
         obj = self.objs[sched]
@@ -477,6 +491,14 @@ class Exec:
     # ---- C15
     def do_cycles(self, prop, idx, op):
         if prop != 'C15':
+            obj = self.objs[op['sched']]
+
+            def calls():
+                obj.check_cycles()
+                buf = io.StringIO()
+                with contextlib.redirect_stdout(buf):
+                    obj.list()
+            self._call(calls)
             return
         sched, m = op['sched'], self.model
         if not m.closed(sched):
